@@ -70,6 +70,28 @@ impl Pool {
         }
     }
 
+    /// Two competing branches G - A1 - A2 and G - B1 - B2 - B3; B2 is the large block; one
+    /// block per reply.
+    pub fn wide(net: ic_btc_interface::Network, follow_ups: usize) -> Pool {
+        let book = Book::new(net);
+        let g = factory::genesis(net);
+        let mk = |prev: &bitcoin::block::Header, salt: u64, outs: Vec<(u64, usize)>| {
+            let txs = vec![coinbase_tx(salt, outs.into_iter().map(|(v, a)| (v, book.script(a))).collect())];
+            factory::regtest_block(prev, prev.time + 600, txs)
+        };
+        let a1 = mk(&g.header, 11, vec![(10, A)]);
+        let b1 = mk(&g.header, 12, vec![(20, B)]);
+        let a2 = mk(&a1.header, 13, vec![(30, A), (31, C)]);
+        let b2 = mk(&b1.header, 14, vec![(40, B), (41, D), (42, E)]);
+        let b3 = mk(&b2.header, 15, vec![(50, B)]);
+        Pool {
+            blocks: vec![a1, b1, a2, b2, b3],
+            large: if follow_ups > 0 { Some(3) } else { None },
+            follow_ups,
+            max_blocks_per_reply: 1,
+        }
+    }
+
     pub fn hash(&self, i: usize) -> H32 {
         self.blocks[i].block_hash().to_byte_array()
     }
